@@ -140,7 +140,7 @@ func (in *Interp) posString() string {
 }
 
 func shortFile(f string) string {
-	f = strings.TrimPrefix(f, "/repo/")
+	f = strings.TrimPrefix(f, repoDir+"/")
 	if i := strings.Index(f, "/go/pkg/mod/"); i >= 0 {
 		f = f[i+len("/go/pkg/mod/"):]
 	}
@@ -1147,6 +1147,18 @@ func (in *Interp) load(pv Value) Value {
 		panic(abortPath{"nil deref"})
 	}
 	if p.VW != 0 {
+		if p.Sym != nil {
+			n := p.Hi - p.Lo
+			if n > in.sh.opts.MaxIteChain {
+				i := int(in.concretize(p.Sym))
+				return in.readBytes(p.N, p.VOff+i*p.VW, p.VW)
+			}
+			res := in.readBytes(p.N, p.VOff+(p.Hi-1)*p.VW, p.VW)
+			for i := p.Hi - 2; i >= p.Lo; i-- {
+				res = in.tb.Ite(in.tb.Eq(p.Sym, in.tb.Const(p.Sym.W, uint64(i))), in.readBytes(p.N, p.VOff+i*p.VW, p.VW), res)
+			}
+			return res
+		}
 		return in.readBytes(p.N, p.VOff, p.VW)
 	}
 	if p.Sym != nil {
@@ -1185,6 +1197,19 @@ func (in *Interp) store(pv Value, v Value) {
 		panic(abortPath{"nil deref"})
 	}
 	if p.VW != 0 {
+		if p.Sym != nil {
+			n := p.Hi - p.Lo
+			if n > in.sh.opts.MaxIteChain {
+				i := int(in.concretize(p.Sym))
+				in.writeBytes(p.N, p.VOff+i*p.VW, p.VW, v.(*Term))
+				return
+			}
+			for i := p.Lo; i < p.Hi; i++ {
+				old := in.readBytes(p.N, p.VOff+i*p.VW, p.VW)
+				in.writeBytes(p.N, p.VOff+i*p.VW, p.VW, in.tb.Ite(in.tb.Eq(p.Sym, in.tb.Const(p.Sym.W, uint64(i))), v.(*Term), old))
+			}
+			return
+		}
 		in.writeBytes(p.N, p.VOff, p.VW, v.(*Term))
 		return
 	}
@@ -1298,8 +1323,10 @@ func (in *Interp) indexAddr(base Value, idx *Term, it types.Type) Value {
 	case SliceV:
 		in.obligation(in.boundsOK(i64, b.Len), "index out of range")
 		if b.VW != 0 {
-			i := in.concInt(i64, "view index")
-			return PtrV{N: b.Arr, VW: b.VW, VOff: b.Off + i*b.VW}
+			if i64.IsConst() {
+				return PtrV{N: b.Arr, VW: b.VW, VOff: b.Off + int(i64.C)*b.VW}
+			}
+			return PtrV{N: b.Arr, VW: b.VW, VOff: b.Off, Sym: i64, Lo: 0, Hi: b.Len}
 		}
 		if i64.IsConst() {
 			return PtrV{N: b.Arr.Kids[b.Off+int(i64.C)]}
